@@ -195,6 +195,9 @@ func c09HostileBody(k c09Case) (body []byte, encoding string, declaredBig bool) 
 		b := refwire.Envelope(0, []byte("0123456789"))
 		copy(b[1:5], []byte{0x04, 0x00, 0x00, 0x00})
 		return b, "", true
+	case "content-length-lie": // unary Connect: a small valid body announced as 128 MiB
+		b, _ := proto.Marshal(&BV{Value: []byte("tiny")})
+		return b, "", true
 	}
 	return nil, "", false
 }
@@ -210,6 +213,12 @@ func c09HostileCheck(c *ev.Collector, k c09Case) {
 	unaryConnect := k.Proto == PConnect && k.Kind == KUnary
 	var body []byte
 	switch {
+	case k.Hostile == "content-length-lie":
+		if !unaryConnect || k.N < 64 {
+			c.Outcome("n/a")
+			return
+		}
+		body = payload
 	case k.Hostile == "lie-huge" || k.Hostile == "lie-64m":
 		if unaryConnect {
 			c.Outcome("n/a")
@@ -253,6 +262,10 @@ func c09HostileCheck(c *ev.Collector, k c09Case) {
 		if enc != "" {
 			req.Header.Set(encH, enc)
 		}
+		if k.Hostile == "content-length-lie" {
+			req.ContentLength = 128 << 20
+			req.Header.Set("Content-Length", "134217728")
+		}
 		rec := httptest.NewRecorder()
 		runtime.ReadMemStats(&before)
 		g = Guarded(func() { h.ServeHTTP(rec, req) })
@@ -268,6 +281,9 @@ func c09HostileCheck(c *ev.Collector, k c09Case) {
 			w.Header().Set("Content-Type", r.Header.Get("Content-Type"))
 			if enc != "" {
 				w.Header().Set(encH, enc)
+			}
+			if k.Hostile == "content-length-lie" {
+				w.Header().Set("Content-Length", "134217728")
 			}
 			_, _ = w.Write(body)
 			switch k.Proto {
@@ -303,11 +319,18 @@ func c09HostileCheck(c *ev.Collector, k c09Case) {
 		BailIfStuck(c, g)
 		return
 	}
-	if delivered != 0 {
-		viol("oversize-never-delivered", "delivered", "a message exceeding the limit %d (hostile %s) reached the application", k.N, k.Hostile)
-	}
-	if errSeen == nil {
-		viol("oversize-fails-call", "success", "hostile %s under limit %d: the call succeeded", k.Hostile, k.N)
+	if k.Hostile == "content-length-lie" {
+		// the message itself is within the limit: only the buffering clause applies
+		if errSeen != nil || delivered != 1 {
+			viol("within-limit-accepted", "rejected", "a %d-byte message announced with a false Content-Length was not accepted under limit %d: %v", len(body), k.N, errSeen)
+		}
+	} else {
+		if delivered != 0 {
+			viol("oversize-never-delivered", "delivered", "a message exceeding the limit %d (hostile %s) reached the application", k.N, k.Hostile)
+		}
+		if errSeen == nil {
+			viol("oversize-fails-call", "success", "hostile %s under limit %d: the call succeeded", k.Hostile, k.N)
+		}
 	}
 	if big {
 		delta := int64(after.TotalAlloc - before.TotalAlloc)
@@ -358,7 +381,7 @@ func c09Cases(thorough bool) (normal, hostile []c09Case) {
 				}
 				normal = append(normal, c09Case{Proto: p, Kind: streamKind, Client: client, N: n, Sizes: []int{okSize, 0, okSize}})
 				normal = append(normal, c09Case{Proto: p, Kind: streamKind, Client: client, N: n, Sizes: []int{}})
-				for _, hk := range []string{"gzip-small", "gzip-bomb", "lie-huge", "lie-64m"} {
+				for _, hk := range []string{"gzip-small", "gzip-bomb", "lie-huge", "lie-64m", "content-length-lie"} {
 					for _, kind := range []Kind{KUnary, streamKind} {
 						hostile = append(hostile, c09Case{Proto: p, Kind: kind, Client: client, N: n, Hostile: hk})
 					}
@@ -372,7 +395,7 @@ func c09Cases(thorough bool) (normal, hostile []c09Case) {
 func TestC09(t *testing.T) {
 	c := ev.New("C09")
 	defer func() { _ = c.Finish() }()
-	c.SetRule("enumeration on real clients and handlers: limit N in {2,3,5,64,512,1024,65536} x message sizes {0,N-1,N,N+1,64N} (identity encoding so wire size = encoded size) x position 1..3 in a stream x {connect,grpc,grpcweb} x limit on {handler, client}; hostile raw peers: gzip with wire <= N < decompressed, gzip inflating to 32 MiB, length prefix 0xFFFFFFFF / 64 MiB with 10 bytes present, with a runtime.MemStats.TotalAlloc probe (allowance 8N+4 MiB, a tenth of the 32 MiB an unbounded receiver would buffer); oracle: a message is delivered iff max(wire, decompressed) <= N, oversize fails the call with invalid_argument, within-limit sequences are accepted intact; distinct = full tuple; non-trivial = at least one message")
+	c.SetRule("enumeration on real clients and handlers: limit N in {2,3,5,64,512,1024,65536} x message sizes {0,N-1,N,N+1,64N} (identity encoding so wire size = encoded size) x position 1..3 in a stream x {connect,grpc,grpcweb} x limit on {handler, client}; hostile raw peers: gzip with wire <= N < decompressed, gzip inflating to 32 MiB, length prefix 0xFFFFFFFF / 64 MiB with 10 bytes present, a unary Connect body announced with Content-Length 128 MiB, with a runtime.MemStats.TotalAlloc probe (allowance 8N+4 MiB, a tenth of the 32 MiB an unbounded receiver would buffer); oracle: a message is delivered iff max(wire, decompressed) <= N, oversize fails the call with invalid_argument, within-limit sequences are accepted intact; distinct = full tuple; non-trivial = at least one message")
 	c.Assume("identity encoding for exact-threshold cases (the sizing rule is wire size)", "allocation probe is a coarse bound with an 8x margin to the smallest illegal behaviour (buffering 32 MiB)")
 	if ev.ReplayFile() != "" {
 		var k c09Case
